@@ -466,6 +466,7 @@ func verify(w *raftv2.WalDB, m *Model, genNo uint64, genHash []byte, o *obs) (ds
 			add("inverse-dead-returns-block", "GetRaftEntryOfBlock(block %d, removed from the log) returned entry %d term %d carrying that block", m.Ever[hsh], got.Index, got.Term)
 		default:
 			o.deadOther++
+			add("inverse-dead-returns-other-entry", "GetRaftEntryOfBlock(block %d, removed from the log) returned entry %d term %d, which carries another block (or none): the removed entry must be reported as absent", m.Ever[hsh], got.Index, got.Term)
 		}
 	}
 	// hard state
